@@ -158,12 +158,14 @@ def typed_layer(ctx, n_pkgs, n_streams, max_cuts):
                 for _ in range(n_streams):
                     ws = ymodel.gen_writes(rng, steps, finite=True, size=2, max_items=3)
                     stream = ymodel.enc_header(gp.schemas_[pname]) + ymodel.enc_steps(steps, ws)
-                    full = gp.py_call({"proto": pname, "fin": "binary", "fout": "ndjson", "data": stream.hex(), "mode": "copy"})
+                    # Python: binary -> binary (the writer's buffer is flushed by the runner when the reader raises), so that
+                    # defects of the Python NDJSON converters do not pollute this check; C++: binary -> NDJSON lines
+                    full = gp.py_call({"proto": pname, "fin": "binary", "fout": "binary", "data": stream.hex(), "mode": "copy"})
                     if not full["ok"]:
                         ctx.report("typed:python:complete-stream-refused", "python refused a complete stream: " + full.get("err", "")[:150],
                                    {"model": gp.pkg.yaml(), "namespace": gp.pkg.namespace, "protocol": pname, "stream_hex": stream.hex()})
                         continue
-                    full_lines = full["out"].split("\n")
+                    full_lines = full["out"]
                     hl = len(ymodel.enc_header(gp.schemas_[pname]))
                     cuts = set(range(hl, len(stream))) if len(stream) - hl <= max_cuts else set(
                         rng.sample(range(hl, len(stream)), max_cuts))
@@ -177,15 +179,19 @@ def typed_layer(ctx, n_pkgs, n_streams, max_cuts):
                                        {"model": gp.pkg.yaml(), "namespace": gp.pkg.namespace, "protocol": pname, "stream_hex": stream.hex()})
                     for cut in sorted(cuts):
                         pre = stream[:cut]
-                        r = gp.py_call({"proto": pname, "fin": "binary", "fout": "ndjson", "data": pre.hex(), "mode": "copy"})
-                        obs = [("python", r["ok"], r["out"].split("\n"), full_lines, r.get("err", ""))]
+                        r = gp.py_call({"proto": pname, "fin": "binary", "fout": "binary", "data": pre.hex(), "mode": "copy"})
+                        obs = [("python", r["ok"], r["out"], full_lines, r.get("err", ""))]
                         if cpp and cfull is not None and (cut % 2 == 0 or len(cuts) < 40):
                             c = gp.cpp_call(pname, "binary", "ndjson", pre)
                             obs.append(("c++", c["ok"], c["out"].decode(errors="replace").split("\n"), cfull, c["err"]))
                         ctx.count("typed_cut_region", "header" if cut < hl else "body")
                         for lang, okk, lines, ref, err in obs:
-                            delivered = [x for x in lines if x]
-                            is_prefix = delivered == [x for x in ref if x][:len(delivered)]
+                            if lang == "python":
+                                delivered = [lines]
+                                is_prefix = ref.startswith(lines)
+                            else:
+                                delivered = [x for x in lines if x]
+                                is_prefix = delivered == [x for x in ref if x][:len(delivered)]
                             ctx.case(("typed-cut", lang, pname, pre), sample={"layer": "typed", "reader": lang, "protocol": pname,
                                      "cut": cut, "of": len(stream), "reported_error": not okk, "values_delivered": max(0, len(delivered) - 1)})
                             ctx.count("typed_error_kind:" + lang, (err.strip().split(":")[0] or "ok")[:40] if not okk else "ACCEPTED")
@@ -219,6 +225,55 @@ def typed_layer(ctx, n_pkgs, n_streams, max_cuts):
         codec.stop_packages(pkgs)
 
 
+def big_payload_layer(ctx, n_cuts):
+    """single values larger than the 64 KiB buffers (array payload, long string) cut inside the payload"""
+    import edgepkg
+    import genrun
+    import ymodel
+    pkg, tested = edgepkg.build()
+    gp = genrun.GenPackage(ctx, pkg, "edgebig", ndjson=False, cpp=True)
+    if not gp.generate():
+        raise RuntimeError("yardl rejected the Edge package: " + gp.gen_out[-800:])
+    schemas = gp.schemas()
+    cpp = gp.cpp_build()
+    gp.py_start()
+    rng = ctx.rng
+    try:
+        for pname, big in (("BArr", ("arr", [20000], [("bits", rng.randrange(1, 2 ** 32)) for _ in range(20000)])),
+                           ("BStr", ("str", [97 + (i % 26) for i in range(70000)]))):
+            steps = dict(pkg.protocols)[pname]
+            ws = [("seq", [("int", 1), ("int", 2)]), big, ("int", -5)]
+            stream = ymodel.enc_header(schemas[pname]) + ymodel.enc_steps(steps, ws)
+            full = gp.py_call({"proto": pname, "fin": "binary", "fout": "binary", "data": stream.hex(), "mode": "copy"})
+            if not full["ok"]:
+                ctx.report("bigpayload:python:complete-stream-refused", "python refused a complete stream with a >64KiB value: " + full.get("err", ""),
+                           {"protocol": pname})
+                continue
+            n = len(stream)
+            cuts = sorted(set([n - 1, n - 2, n - 3, n - 65536, n - 65537, n - 65535, 65536, 65537, 131072] +
+                              [rng.randrange(n - 70000, n) for _ in range(n_cuts)] + [rng.randrange(200, n) for _ in range(n_cuts // 2)]))
+            for cut in cuts:
+                if not (0 < cut < n):
+                    continue
+                pre = stream[:cut]
+                r = gp.py_call({"proto": pname, "fin": "binary", "fout": "binary", "data": pre.hex(), "mode": "copy"})
+                res = [("python", r["ok"], full["out"].startswith(r["out"]), r.get("err", ""))]
+                if cpp:
+                    c = gp.cpp_call(pname, "binary", "binary", pre)
+                    res.append(("c++", c["ok"], True, c["err"]))
+                for lang, okk, is_prefix, err in res:
+                    ctx.case(("big-cut", lang, pname, cut), sample={"layer": "big-payload", "reader": lang, "protocol": pname, "cut": cut,
+                                                                    "of": n, "reported_error": not okk})
+                    crashed = lang == "c++" and not okk and "ERR:" not in err
+                    if okk or not is_prefix or crashed:
+                        ctx.report("bigpayload:%s:%s" % (lang, "accepted-truncated" if okk else ("crash" if crashed else "wrong-values-before-error")),
+                                   "%s reader %s on a stream with a >64 KiB value cut at byte %d of %d (protocol %s)"
+                                   % (lang, "completed normally" if okk else ("crashed" if crashed else "delivered values that were never written"),
+                                      cut, n, pname), {"layer": "big-payload", "reader": lang, "protocol": pname, "cut": cut, "of": n})
+    finally:
+        gp.py_stop()
+
+
 def run(ctx):
     ctx.build_repo(need_hook=True)
     ok, failing, log = ctx.coq_props("C16")
@@ -233,6 +288,7 @@ def run(ctx):
     cpp_reader_layer(ctx, 40 if quick else 400, [1, 2, 3, 4, 5, 7, 8, 10, 11, 16, 17, 64])
     py_reader_layer(ctx, 30 if quick else 300, [8, 9, 10, 11, 16, 17, 64])
     typed_layer(ctx, 1 if quick else 5, 2 if quick else 5, 60 if quick else 400)
+    big_payload_layer(ctx, 16 if quick else 120)
 
 
 def replay(ctx, path):
